@@ -121,6 +121,8 @@ def gen_case(rng, big=False, want_compound=None, risky=False):
     for a in madds:
         slots[rng.below(len(slots))].append(a)
     added = []
+    if rng.chance(1, 3):
+        prog.append(('stalladd', rng.choice([100, 300, 1000])))
     for m in tps:
         if m['id'] in free and rng.chance(1, 10):
             prog.append(('compose1', m['id']))
@@ -319,21 +321,28 @@ def index_events(case, ev):
     """per taskpool: positions of tb/te per task, cb positions; plus explicit add positions"""
     info = {}
     for u in case['units']:
-        info[u['id']] = {'tb': {}, 'te': {}, 'cb': [], 'add': [], 'u': u}
+        info[u['id']] = {'tb': {}, 'te': {}, 'cb': [], 'cbe': [], 'add': [], 'u': u}
     for i, (k, t, a, b) in enumerate(ev):
+        if k in ('tb', 'te', 'cb', 'cbe', 'add') and a not in info:
+            info[a] = {'tb': {}, 'te': {}, 'cb': [], 'cbe': [], 'add': [], 'u': {'kind': 'tp', 'id': a, 'shape': 'indep', 'n': 0, 'foreign': True}}
         if k == 'tb':
             info[a]['tb'].setdefault(b, []).append(i)
         elif k == 'te':
             info[a]['te'].setdefault(b, []).append(i)
         elif k == 'cb':
             info[a]['cb'].append(i)
+        elif k == 'cbe':
+            info[a]['cbe'].append(i)
         elif k == 'add':
             info[a]['add'].append(i)
     return info
 
 
 def members_closure(case, uid):
-    u = [x for x in case['units'] if x['id'] == uid][0]
+    l = [x for x in case['units'] if x['id'] == uid]
+    if not l:
+        return [uid]
+    u = l[0]
     return list(u['members']) if u['kind'] == 'comp' else [uid]
 
 
@@ -434,7 +443,10 @@ def oracle_C06(case, ev, info):
     those added while it runs) completed; taskpool_wait returns only after that taskpool terminated; each completion
     callback runs exactly once, after the last task; every epoch behaves the same."""
     out = []
-    units = {u['id']: u for u in case['units']}
+    units = {uid: inf['u'] for uid, inf in info.items()}
+    for uid, inf in info.items():
+        if inf['u'].get('foreign'):
+            out.append(('foreign-event', 'events of a taskpool %d that does not belong to this case (left over from an earlier one)' % uid))
     member_of = {m: u['id'] for u in case['units'] if u['kind'] == 'comp' for m in u['members']}
     for i, (k, t, a, b) in enumerate(ev):
         if k == 'waitret' and a == 0:
@@ -446,8 +458,8 @@ def oracle_C06(case, ev, info):
                     for tp in members_closure(case, uid):
                         if not all_done_before(info, tp, i):
                             out.append(('wait-returned-early', 'parsec_context_wait returned (event %d) before every task of taskpool %d (added as %d) completed' % (i, tp, uid)))
-                    if units[uid].get('cb') and not any(p < i for p in inf['cb']):
-                        out.append(('wait-returned-early', 'parsec_context_wait returned (event %d) before the completion callback of %d ran' % (i, uid)))
+                    if units[uid].get('cb') and units[uid]['kind'] == 'tp' and not any(p < i for p in inf['cbe']):
+                        out.append(('wait-returned-early', 'parsec_context_wait returned (event %d) before the completion callback of %d had run to its end' % (i, uid)))
             # ... and nothing runs after the return until the next start
             for j in range(i + 1, len(ev)):
                 if ev[j][0] == 'startcall':
@@ -462,7 +474,7 @@ def oracle_C06(case, ev, info):
                     key = KEY_TPWAIT_COMPOUND if units[uid]['kind'] == 'comp' else 'taskpool_wait-returned-early'
                     out.append((key, 'parsec_taskpool_wait(%d) returned (event %d) before every task of taskpool %d completed' % (uid, i, tp)))
                     break
-            if units[uid]['kind'] == 'tp' and units[uid].get('cb') and not any(p < i for p in info[uid]['cb']):
+            if units[uid]['kind'] == 'tp' and units[uid].get('cb') and not any(p < i for p in info[uid]['cbe']):
                 out.append(('taskpool_wait-returned-early', 'parsec_taskpool_wait(%d) returned before its completion callback' % uid))
         if k == 'active' and i > 0 and ev[i - 1][0] == 'waitret' and ev[i - 1][2] == 0 and a != 0:
             out.append(('counter-not-zero-after-wait', 'active_taskpools = %d right after parsec_context_wait returned' % a))
@@ -641,7 +653,7 @@ def run_common(ctx, res, prop, oracle, known_keys, want_compound, lines_override
                     res.violations.append({'key': KEY_COMPOUND_HANG, 'what': x + ' — all other threads left the loop at the transient zero of active_taskpools and sit at the end-of-epoch barrier',
                                            'case': hcase, 'script': render(hcase), 'history': tcs[-1]['ops'][-40:], 'threads': K, 'sched': sched, 'keep': keep})
                 continue
-            res.violations.append({'key': '%s K=%d sched=%s' % (k, K, sched), 'what': x, 'case': cs[idx] if 0 <= idx < len(cs) else None,
+            res.violations.append({'key': '%s K=%d sched=%s' % (k, K, sched), 'what': x, 'case': hcase, 'script': render(hcase) if hcase else None,
                                    'history': tcs[-1]['ops'][-60:] if tcs else [], 'threads': K, 'sched': sched, 'keep': keep})
         if rc != 0 and not hviols:
             res.violations.append({'key': 'harness-exit-%d K=%d sched=%s' % (rc, K, sched), 'what': 'harness exited with %d after %d complete cases: %s' % (rc, len(tcs), err[-500:]),
